@@ -1298,6 +1298,18 @@ let dc_entries_pol single h cs =
 let dict_update cs new0 =
   fold_left (fun acc kv -> cell_set (fst kv) (snd kv) acc) new0 cs
 
+(** val has_key : z -> (z * val0) list -> bool **)
+
+let has_key k cs =
+  match cell_get k cs with
+  | Some _ -> true
+  | None -> false
+
+(** val keep_keys : (z * val0) list -> (z * val0) list -> (z * val0) list **)
+
+let keep_keys orig cs =
+  filter (fun kv -> has_key (fst kv) orig) cs
+
 (** val copy_M : consts -> heap -> loc -> (heap * loc) option **)
 
 let copy_M k h r =
@@ -1320,7 +1332,8 @@ let copy_M k h r =
                       | Some o' ->
                         Some
                           ((set_obj h3 (snd (fst i)) { okind = o'.okind;
-                             ocells = (dict_update o'.ocells cs') }),
+                             ocells =
+                             (keep_keys o.ocells (dict_update o'.ocells cs')) }),
                           (snd (fst i)))
                       | None -> None)
                    | None -> None)
@@ -1437,7 +1450,8 @@ let linker_copy_M k h r =
                               Some
                                 ((set_obj h3 (snd (fst i)) { okind =
                                    o'.okind; ocells =
-                                   (dict_update o'.ocells es) }),
+                                   (keep_keys o.ocells
+                                     (dict_update o'.ocells es)) }),
                                 (snd (fst i)))
                             | None -> None)
                          | None -> None)
@@ -1618,6 +1632,18 @@ type op =
 | OSetAttrSet of z * z list
 | OReplaceSeries of z * z list
 
+(** val list_eqb : ('a1 -> 'a1 -> bool) -> 'a1 list -> 'a1 list -> bool **)
+
+let rec list_eqb eqb0 a0 b =
+  match a0 with
+  | [] -> (match b with
+           | [] -> true
+           | _ :: _ -> false)
+  | x :: r ->
+    (match b with
+     | [] -> false
+     | y :: q -> (&&) (eqb0 x y) (list_eqb eqb0 r q))
+
 (** val is_empty_trace : heap -> loc -> z -> bool **)
 
 let is_empty_trace h r t =
@@ -1670,10 +1696,12 @@ let compile_op k h r = function
 | OAddVariable (name, dt, vs) ->
   if zmem name (scalars_path h r ((a n_index) :: []))
   then []
-  else app (add_variable_acts name dt vs)
-         (if has_cell h r (a n_names)
-          then (AAppend (((a n_names) :: []), (SScalar name))) :: []
-          else [])
+  else if has_cell h r (v name)
+       then []
+       else app (add_variable_acts name dt vs)
+              (if has_cell h r (a n_names)
+               then (AAppend (((a n_names) :: []), (SScalar name))) :: []
+               else [])
 | OSetAttr (name, v0) ->
   let x = resolve_alias h r name in
   if zmem x (scalars_path h r ((a n_index) :: []))
@@ -1712,7 +1740,13 @@ let compile_op k h r = function
   let col =
     map (fun x -> cell_scalar h r ((v (resolve_alias h r x)) :: []) t) names
   in
-  let fresh = (||) (is_empty_trace h r t) reset in
+  let fresh =
+    (||) ((||) (is_empty_trace h r t) reset)
+      (negb
+        (list_eqb Z.eqb
+          (scalars_path h r ((v n_trace) :: (t :: ((a n_names) :: []))))
+          names))
+  in
   let old =
     if fresh
     then []
@@ -2031,18 +2065,6 @@ let run_hevent k s = function
 
 let run_hevents k s es =
   fold_left (run_hevent k) es s
-
-(** val list_eqb : ('a1 -> 'a1 -> bool) -> 'a1 list -> 'a1 list -> bool **)
-
-let rec list_eqb eqb0 a0 b =
-  match a0 with
-  | [] -> (match b with
-           | [] -> true
-           | _ :: _ -> false)
-  | x :: r ->
-    (match b with
-     | [] -> false
-     | y :: q -> (&&) (eqb0 x y) (list_eqb eqb0 r q))
 
 (** val path_eqb : z list -> z list -> bool **)
 
